@@ -3,7 +3,8 @@
    Model: Model/Makepat.v (pat.go, mayMatchNumber).  Specifications: Spec/StrMatch.v
    (bmake's Str_Match, `malformed`), Spec/CNumber.v (C99 number grammar). *)
 From PV Require Import Lib.Bytes Lib.ByteRange Gen.NumberAutomaton Model.Makepat Spec.StrMatch Spec.CNumber
-  Proofs.MakepatRefute Proofs.MakepatMalformed Proofs.MakepatStrMatch Proofs.CNumberRe Proofs.NumberExact.
+  Proofs.MakepatRefute Proofs.MakepatMalformed Proofs.MakepatStrMatch Proofs.CNumberRe Proofs.NumberExact
+  Proofs.MakepatNFA Proofs.MakepatReach Proofs.MakepatIntersect3 Proofs.MakepatMayMatch Proofs.MakepatChainRanges.
 Open Scope N_scope.
 
 (* ---------- Compile ---------- *)
@@ -45,6 +46,51 @@ Theorem C13_match_is_strmatch_partial : forall (p : str) (a : pattern) (s : str)
 Proof. exact match_is_strmatch_partial. Qed.
 Print Assumptions C13_match_is_strmatch_partial.
 
+(* ---------- Intersect, reachable, CanMatch: for all well-formed automata ---------- *)
+
+(* wf a        (Proofs/MakepatNFA.v):   a has at least one state and every transition
+                                        leads to an existing state;
+   ranges_ok a (Proofs/MakepatReach.v): every transition has min <= max <= 255.
+   Both hold of every compiled pattern (the next two theorems), of Number(), and
+   are preserved by Intersect (C13_intersect_exact). *)
+Theorem C13_compile_wf : forall (p : str) (a : pattern),
+  N.of_nat (length p) < 65536 -> compile p = Ok (Some a) -> wf a.
+Proof. exact compile_wf. Qed.
+Print Assumptions C13_compile_wf.
+
+Theorem C13_compile_ranges : forall (p : str) (a : pattern),
+  N.of_nat (length p) < 65536 -> is_bytes p -> compile p = Ok (Some a) -> ranges_ok a.
+Proof. exact compile_ranges. Qed.
+Print Assumptions C13_compile_ranges.
+
+Theorem C13_number_wf : wf number /\ ranges_ok number.
+Proof. exact number_wf_ranges. Qed.
+Print Assumptions C13_number_wf.
+
+(* Intersect neither panics nor (it has no fuel) diverges; the result is again
+   well-formed; it matches a string iff both arguments do.  The size guard is
+   the uint16 of stateID: a state is allocated per pair of states. *)
+Theorem C13_intersect_exact : forall a b : pattern,
+  wf a -> wf b -> nlen a * nlen b <= 65536 ->
+  exists i, intersect a b = Ok i /\ wf i /\ (ranges_ok a \/ ranges_ok b -> ranges_ok i) /\
+    forall s, exists x y, matchp a s = Ok x /\ matchp b s = Ok y /\ matchp i s = Ok (x && y).
+Proof. exact intersect_exact_match. Qed.
+Print Assumptions C13_intersect_exact.
+
+(* the `goto again` loop of reachable() terminates within its fuel and never
+   indexes out of range; the result marks exactly the states that can be
+   reached from state 0 *)
+Theorem C13_reachable_total : forall a : pattern, wf a ->
+  exists rc, reachable a = Ok rc /\ reach_ok a rc.
+Proof. exact reachable_total. Qed.
+Print Assumptions C13_reachable_total.
+
+(* CanMatch is true exactly when some byte string is matched *)
+Theorem C13_can_match_exact : forall a : pattern, wf a -> ranges_ok a ->
+  exists b, can_match a = Ok b /\ (b = true <-> exists s, is_bytes s /\ matchp a s = Ok true).
+Proof. exact can_match_exact. Qed.
+Print Assumptions C13_can_match_exact.
+
 (* ---------- Number() ---------- *)
 
 (* the automaton literal (regenerated from pat.go on every run) accepts exactly
@@ -55,8 +101,32 @@ Print Assumptions C13_number_exact.
 
 (* the recogniser of the spec is the textbook language of the grammar *)
 Theorem C13_c_number_is_grammar : forall s : str, is_c_number s = true <-> lang c_number s.
-Proof. exact (fun s => re_match_spec c_number s). Qed.
+Proof. exact c_number_is_grammar. Qed.
 Print Assumptions C13_c_number_is_grammar.
+
+(* ---------- mayMatchNumber ---------- *)
+
+(* for a pattern of at most 5040 bytes (5041 x 13 product states fit into a
+   uint16) without the "x-]" quirk: mayMatchNumber never panics; it reports an
+   error exactly for malformed patterns; otherwise its answer is true exactly
+   when some byte string is matched by the pattern (bmake's Str_Match) and is a
+   C99 number *)
+Theorem C13_may_match_number_exact : forall p : str,
+  N.of_nat (length p) <= 5040 -> range_to_rbracket p = false ->
+  exists b e, may_match_number p = Ok (b, e) /\
+    (e = true <-> malformed p = true) /\
+    (e = false ->
+     (b = true <-> exists s, is_bytes s /\ str_match p s = Some true /\ is_c_number s = true)).
+Proof. exact may_match_number_exact. Qed.
+Print Assumptions C13_may_match_number_exact.
+
+(* what the caller relies on: "false" means no numeric word can be matched *)
+Theorem C13_may_match_number_sound : forall p : str,
+  N.of_nat (length p) <= 5040 -> range_to_rbracket p = false ->
+  may_match_number p = Ok (false, false) ->
+  forall s, is_bytes s -> str_match p s = Some true -> is_c_number s = false.
+Proof. exact may_match_number_sound. Qed.
+Print Assumptions C13_may_match_number_sound.
 
 (* ---------- non-vacuity ---------- *)
 
